@@ -250,9 +250,11 @@ func genC12(t *rapid.T) *C12Case {
 			c.Level = "build"
 		}
 	}
-	n := rapid.IntRange(1, 12).Draw(t, "nOps")
+	n := rapid.IntRange(2, 14).Draw(t, "nOps")
 	for i := 0; i < n; i++ {
-		kind := rapid.SampledFrom(OpKinds).Draw(t, "op")
+		// rapid's draws favour the ends of a range; the second draw spreads the choice evenly
+		// over the kinds (both shrink towards the first kind)
+		kind := OpKinds[(rapid.IntRange(0, len(OpKinds)-1).Draw(t, "op")+rapid.IntRange(0, 100000).Draw(t, "opSpread"))%len(OpKinds)]
 		if (kind == "duplicate-field-number" || kind == "duplicate-msgtype") && rapid.IntRange(0, 3).Draw(t, "keepDup") != 0 {
 			kind = "add-field"
 		}
